@@ -87,6 +87,15 @@ theorem C18_setup_pinned :
        "setupAPIRouter:router.Use(kproapi.ConfigMiddleware(srv.config.GetEnableWriteOperations()))",
        "setupAPIRouter:kproapi.HandlerFromMux(srv,router)"] := by decide
 
+/-- the gate keeps nothing from one request to the next: apart from the request, its code reaches only the
+    configured switch, the document getter, the next handler and three functions of its package that read their
+    arguments.  A memo of earlier decisions, a counter or a package-level table shows up here as a new name; the
+    decision model (`decision`) has no such state, so with one the model would no longer be the gate. -/
+theorem C18_gate_stateless :
+    Generated.ApiFacts.gateReads =
+      ["enableWriteOperations", "findOperation", "getSpec", "isReadOnlyEndpoint", "next", "shouldEnableEndpoint"] := by
+  decide
+
 /-- **Blocked, for the code as it is now** (the generic theorem instantiated with the generated tables). -/
 theorem C18_blocked_now (unescape : Path → Path) (hun : ∀ p : Path, p.contains '%' = false → unescape p = p)
     (listing : List Path) (method : String) (routePath path : Path)
